@@ -41,6 +41,11 @@ func borrowed(fn *ssa.Function, or BOrigin) (bool, string) {
 		case NameOf(f) == "Bytes" && f.Signature.Recv() != nil && PkgPathOf(f) != "":
 			return true, "the byte slice returned by " + ShortName(f)
 		}
+		// a getter of the bytes of an evaluator Value: a Value made from a
+		// constant shares the constant's storage (expreval.ParseConst)
+		if fld, isGetter := GetterOf(f); isGetter && fld == "bs" && PkgPathOf(f) == ModulePath+"/"+pkgEval {
+			return true, "the bytes of an evaluator value, which may be the storage of a constant (" + ShortName(f) + ")"
+		}
 	case OField:
 		own := ""
 		if or.Field.Pkg() != nil {
@@ -49,6 +54,8 @@ func borrowed(fn *ssa.Function, or BOrigin) (bool, string) {
 		switch {
 		case or.Field.Name() == "bs" && own == ExprPkg:
 			return true, "the storage of a constant (Const.bs)"
+		case or.Field.Name() == "bs" && own == ModulePath+"/"+pkgEval:
+			return true, "the bytes of an evaluator value, which may be the storage of a constant (Value.bs)"
 		case or.Field.Name() == "bytes" && own == ModulePath+"/"+pkgElf:
 			return true, "the bytes of an ELF block"
 		}
@@ -716,6 +723,8 @@ func checkInsertion(c *Ctx, rule string, fn *ssa.Function, field string) int {
 
 func checkC16(c *Ctx) {
 	c.Rule("C16.set", "set algebra by truth table: Overlay.Missing = base.Missing ∩ overlay.Missing; Overlay.Blocks = base.Blocks ∪ overlay.Blocks; in Load the ranges read from the overlay are [addr,addr+w) \\ overlay.Missing and the ranges read from the base are overlay.Missing")
+	c.Rule("C16.ops", "the interval operators the set algebra stands on: the per-interval helpers of MapIntersect and MapComplement, walked for every ordering of the endpoints of an interval and a sorted list of up to 3 intervals, emit exactly the intersection / difference and report as consumed only list elements that end at or before the interval; the drivers give every interval of the first operand to the helper with the unconsumed rest of the second, advance the rest by the reported count and append every piece")
+	checkIntervalOps(c, "C16.ops")
 	c.Rule("C16.ro", "the base layer is read-only: on Overlay.base only Load, Missing and Blocks are ever invoked; Overlay.Store delegates to the overlay layer with its own arguments; no Store is invoked on anything obtained from Overlay.Base()")
 	c.Rule("C16.load", "Overlay.Load: nothing missing in the overlay -> overlay.Load(addr,w); everything missing -> base.Load(addr,w); otherwise every range is read with (Begin(), Len()) of its interval, a failed base read returns (nil,false), pieces are sorted by Begin(), the first is taken as is and every other piece is shifted by (Begin()-addr) bytes with Lsh and OR-ed at width w")
 	checkSetTerm(c, "C16.set", "(*"+pkgMemory+".Overlay).Missing", []string{"base.Missing", "overlay.Missing"},
@@ -1062,6 +1071,8 @@ func usedByBitOr(v ssa.Value, w *ssa.Parameter) bool {
 func checkC14(c *Ctx) {
 	c.Rule("C14.cut", "ghost intervals (E8): every cutExpr put into the tree by Sparse.Store covers exactly the address interval it is stored under; in Sparse.Load the piece taken from an overlapping interval o covers exactly [max(addr,o.Low), min(end,o.High)), is shifted by (piece.low - addr) bytes and OR-ed at width w; cutBegin(L)/cutEnd(L) keep the last/first L bytes")
 	c.Rule("C14.miss", "Sparse.Missing emits a gap interval.New(a, b) only under a comparison establishing a < b (or a != b for consecutive sorted intervals): before the first overlap, between overlaps, after the last one; with no overlap the whole range is missing")
+	c.Rule("C14.bits", "byte counts of type expr.Width (8 bits) are turned into bit counts only after being widened: in packages memory and expr no multiplication or left shift by a constant is carried out in an 8-bit type (offsets of 32 bytes and more would wrap)")
+	checkNarrowScaling(c, "C14.bits", []string{ModulePath + "/" + pkgMemory, ExprPkg})
 	c.Rule("C14.own", "sparse memory never writes through a byte slice it was handed")
 	c.Rule("C14.whole", "Sparse.Load fails unless wholeInterval(addr, end, overlaps) holds; wholeInterval, walked concretely on 16 interval lists, is true exactly for a non-empty contiguous list that starts at or before begin and ends at or after end")
 	ownRule(c, "C14.own", func(fn *ssa.Function) bool {
@@ -1333,4 +1344,54 @@ func sortsAscending(cc *ssa.CallCommon, isKey func(ssa.Value) bool) bool {
 		}
 	}
 	return n == 1
+}
+
+// checkNarrowScaling: see rule C14.bits.
+func checkNarrowScaling(c *Ctx, rule string, pkgs []string) {
+	is8 := func(t types.Type) bool {
+		b, ok := t.Underlying().(*types.Basic)
+		return ok && (b.Kind() == types.Uint8 || b.Kind() == types.Int8)
+	}
+	nWide := 0
+	for _, fn := range c.Prog.Funcs() {
+		in := false
+		for _, p := range pkgs {
+			if PkgPathOf(fn) == p {
+				in = true
+			}
+		}
+		if !in || fn.Blocks == nil || fn.Origin() != nil {
+			continue
+		}
+		for _, b := range fn.Blocks {
+			for _, instr := range b.Instrs {
+				bo, ok := instr.(*ssa.BinOp)
+				if !ok || (bo.Op != token.MUL && bo.Op != token.SHL) {
+					continue
+				}
+				k, isC := ConstInt(bo.Y)
+				other := bo.X
+				if !isC && bo.Op == token.MUL {
+					k, isC = ConstInt(bo.X)
+					other = bo.Y
+				}
+				if !isC || (bo.Op == token.MUL && k < 2) || (bo.Op == token.SHL && k < 1) {
+					continue
+				}
+				if _, constOperand := other.(*ssa.Const); constOperand {
+					continue
+				}
+				if is8(bo.Type()) {
+					c.Fail(rule, fmt.Sprintf("%s/%s-by-%d", ShortName(fn), map[token.Token]string{token.MUL: "multiply", token.SHL: "shift"}[bo.Op], k), c.Prog.Pos(bo.Pos()), "an 8-bit quantity is scaled in 8-bit arithmetic: the result wraps at 256")
+					continue
+				}
+				// the widened form: the scaled operand is an 8-bit value converted up
+				if cv, isConv := other.(*ssa.Convert); isConv && is8(cv.X.Type()) {
+					nWide++
+					c.Pass(rule, fmt.Sprintf("%s/widened-before-scaling-by-%d", ShortName(fn), k), c.Prog.Pos(bo.Pos()), "")
+				}
+			}
+		}
+	}
+	c.RequireCount(rule+" scalings of a widened 8-bit quantity", nWide, 1)
 }
